@@ -87,6 +87,9 @@ func Concretize(e *Edge, n int) Concrete {
 		case "rej":
 			line(base)
 			k.Setup = func(be *rec.Backend) { be.MailErrs = []error{errors.New("sender refused")} }
+		case "rej5":
+			line(base)
+			k.Setup = func(be *rec.Backend) { be.MailErrs = []error{&smtp.SMTPError{Code: 550, Message: "sender refused for good"}} }
 		case "panic":
 			line(base)
 			k.Setup = func(be *rec.Backend) { be.PanicIn = "Mail" }
@@ -116,6 +119,9 @@ func Concretize(e *Edge, n int) Concrete {
 		case "rej":
 			line(base)
 			k.Setup = func(be *rec.Backend) { be.RcptErrs = []error{errors.New("recipient refused")} }
+		case "rej5":
+			line(base)
+			k.Setup = func(be *rec.Backend) { be.RcptErrs = []error{&smtp.SMTPError{Code: 550, Message: "no such user here"}} }
 		case "noto":
 			line("RCPT FROM:<" + k.RcptTo + ">")
 		case "badpath":
